@@ -7,6 +7,7 @@ import (
 	"context"
 	"fmt"
 	"sort"
+	"time"
 
 	ipfslog "berty.tech/go-ipfs-log"
 	"berty.tech/go-ipfs-log/entry"
@@ -49,6 +50,7 @@ type loadSpec struct {
 	cancelRate  int
 	spare       int
 	timeoutless bool
+	timeout     time.Duration
 }
 
 type loadInputs struct {
@@ -89,32 +91,57 @@ func (w *World) load(in *loadInputs, sp loadSpec, rcv *Writer) (*ipfslog.IPFSLog
 	if sp.cancelRate > 0 || sp.timeoutless {
 		d.Cancel = cancel
 	}
-	d.Run(func() {
-		switch sp.loader {
-		case ldManifest:
-			l, err = ipfslog.NewFromMultihash(ctx, w.St, rcv.ID, in.manifest, w.loadOpts(), &ipfslog.FetchOptions{Concurrency: sp.conc, Length: sp.length})
-		case ldJSON:
-			l, err = ipfslog.NewFromJSON(ctx, w.St, rcv.ID, in.json, w.loadOpts(), &entry.FetchOptions{Concurrency: sp.conc, Length: sp.length})
-		case ldEntries:
-			// the caller's slice may have spare capacity (built with make/append): the library must neither
-			// write into that capacity in a way that disturbs the result nor reorder what the caller passed
-			src := make([]iface.IPFSLogEntry, len(in.heads), len(in.heads)+sp.spare)
-			copy(src, in.heads)
-			l, err = ipfslog.NewFromEntry(ctx, w.St, rcv.ID, src, w.loadOpts(), &entry.FetchOptions{Concurrency: sp.conc, Length: sp.length})
-			for i := range in.heads {
-				if src[i] != in.heads[i] {
-					w.R.Violate(w.P.Prop+":caller-slice-modified", "NewFromEntry changed element %d of the slice of entries its caller supplied", i)
-				}
-			}
-		case ldHash:
-			l, err = ipfslog.NewFromEntryHash(ctx, w.St, rcv.ID, in.hash, w.loadOpts(), &ipfslog.FetchOptions{Concurrency: sp.conc, Length: sp.length})
-		}
-	})
+	d.Run(func() { l, err = w.invokeLoader(ctx, in, sp, rcv, w.loadOpts()) })
 	w.R.Add("fetch-steps", int64(d.Steps))
 	if d.MainSemBlocked > 0 {
 		w.R.Probe("fetch-main-blocked-on-semaphore")
 	}
 	return l, err, d
+}
+
+// abortedLoad: a load of some stored log that its caller gives up on (context cancelled while requests are
+// outstanding or queued). Its result is of no interest; what the process does afterwards must not depend on it.
+func (w *World) abortedLoad() {
+	n := w.pickSource("abort-src")
+	if n == nil {
+		return
+	}
+	in := w.prepareInputs(n)
+	sp := loadSpec{loader: w.pickLoader(in), conc: 1 + w.R.Choose("abort-conc", 2), bias: w.R.Choose("bias", 3), cancelRate: 150 + 100*w.R.Choose("abort-rate", 4)}
+	if w.R.Choose("abort-limited", 2) == 0 {
+		lim := 1 + w.R.Choose("abort-limit", len(in.set)+1)
+		sp.length = &lim
+	}
+	_, err, d := w.load(in, sp, Writers()[4])
+	w.R.Logf("aborted load of n%d via %s conc=%d: cancelled=%v err=%v steps=%d", n.Idx, loaderNames[sp.loader], sp.conc, d.Cancelled, err != nil, d.Steps)
+	if d.Cancelled {
+		w.R.Probe("load-after-an-aborted-load")
+	}
+	w.St.Reqs = nil
+}
+
+// invokeLoader calls one of the four loaders (no driver: the caller decides how requests are answered).
+func (w *World) invokeLoader(ctx context.Context, in *loadInputs, sp loadSpec, rcv *Writer, o *ipfslog.LogOptions) (l *ipfslog.IPFSLog, err error) {
+	switch sp.loader {
+	case ldManifest:
+		l, err = ipfslog.NewFromMultihash(ctx, w.St, rcv.ID, in.manifest, o, &ipfslog.FetchOptions{Concurrency: sp.conc, Length: sp.length, Timeout: sp.timeout})
+	case ldJSON:
+		l, err = ipfslog.NewFromJSON(ctx, w.St, rcv.ID, in.json, o, &entry.FetchOptions{Concurrency: sp.conc, Length: sp.length, Timeout: sp.timeout})
+	case ldEntries:
+		// the caller's slice may have spare capacity (built with make/append): the library must neither
+		// write into that capacity in a way that disturbs the result nor reorder what the caller passed
+		src := make([]iface.IPFSLogEntry, len(in.heads), len(in.heads)+sp.spare)
+		copy(src, in.heads)
+		l, err = ipfslog.NewFromEntry(ctx, w.St, rcv.ID, src, o, &entry.FetchOptions{Concurrency: sp.conc, Length: sp.length, Timeout: sp.timeout})
+		for i := range in.heads {
+			if src[i] != in.heads[i] {
+				w.R.Violate(w.P.Prop+":caller-slice-modified", "NewFromEntry changed element %d of the slice of entries its caller supplied", i)
+			}
+		}
+	case ldHash:
+		l, err = ipfslog.NewFromEntryHash(ctx, w.St, rcv.ID, in.hash, o, &ipfslog.FetchOptions{Concurrency: sp.conc, Length: sp.length, Timeout: sp.timeout})
+	}
+	return
 }
 
 func (w *World) pickSource(label string) *Node {
@@ -145,15 +172,19 @@ func (w *World) pickConc() int {
 
 // ------------------------------------------------------------------ C09
 
-func RunC09(r *Run) {
-	// the source world is a full (fault-free) replica world: publications, manifests and head lists are
-	// produced and consumed all along its history (deliveries and restarts check reload == source, too),
-	// so that repeated publication of a log that changes in between is part of what is reloaded
+func c09Profile() *Profile {
 	p := e0Profile("C09", "C09")
 	p.NoFaults = true
 	p.Weights[opPublish] = 12
 	p.Weights[opByz], p.Weights[opRefused], p.Weights[opAlgebra], p.Weights[opSpecial] = 0, 0, 0, 0
-	w := BuildWorld(r, p)
+	return p
+}
+
+func RunC09(r *Run) {
+	// the source world is a full (fault-free) replica world: publications, manifests and head lists are
+	// produced and consumed all along its history (deliveries and restarts check reload == source, too),
+	// so that repeated publication of a log that changes in between is part of what is reloaded
+	w := BuildWorld(r, c09Profile())
 	for s := 0; s < 5; s++ {
 		r.T.Mark()
 		// the tape decides after each scenario whether another follows (0 = stop; an exhausted tape stops)
@@ -163,6 +194,9 @@ func RunC09(r *Run) {
 		n := w.pickSource("src")
 		if n == nil {
 			break
+		}
+		if r.Choose("abort-before", 4) == 0 {
+			w.abortedLoad()
 		}
 		in := w.prepareInputs(n)
 		sp := loadSpec{loader: w.pickLoader(in), conc: w.pickConc(), bias: r.Choose("bias", 3)}
@@ -255,6 +289,9 @@ func RunC10(r *Run) {
 		n := w.pickSource("src")
 		if n == nil {
 			break
+		}
+		if r.Choose("abort-before", 3) == 0 {
+			w.abortedLoad()
 		}
 		in := w.prepareInputs(n)
 		ld := w.pickLoader(in)
